@@ -6,7 +6,7 @@ import fnmatch
 
 T0 = 1600000000
 CONTENTS = [b"1\n", b"2\n", b"", b"11\n", b"22\n", b"a longer line of text\n", b"x", b"33\n"]
-PATHS = ["a", "ab", "a/b", "a/c", "b", "d/e", "d/f", "d/g/h", "l", "x.o", "keep.o", "d/y.o", "build/y", "build/z/w",
+PATHS = ["a", "ab", "a/b", "a/c", "b", "d/e", "d/f", "d/g/h", "d.x", "d-x", "l", "x.o", "keep.o", "d/y.o", "build/y", "build/z/w",
          "src/build/q", "top", "d/top", "t.tmp", "d/t.tmp", "d/loc", "u", "v w", "z"]
 IGN_ROOT = [b"*.o\n", b"*.o\n!keep.o\n", b"build/\n", b"/top\n", b"*.o\nbuild/\n/top\n", b"u\n", b"d/\n!d/e\n", b"# c\n\n*.tmp\n"]
 IGN_D = [b"*.tmp\n", b"/loc\n", b"!y.o\n", b"*.tmp\n/loc\n"]
